@@ -11,15 +11,207 @@ def _c07_case(c):
         return {"kind": "seed", "part": part, "seed": seed}
     return {"raw": c}
 
+# ---- in-Coq re-evaluation (vm_compute) of a sample of the correspondence cases: cross-checks the
+# extraction and the OCaml driver against the Gallina definitions the theorems are about ----
+_VM_PRELUDE = """From Coq Require Import List NArith Bool.
+Import ListNotations.
+From Oras Require Import Model.GraphMem Model.GraphStore.
+Fixpoint vm_ins (x : N) (l : list N) : list N :=
+  match l with [] => [x] | y :: r => if N.leb x y then x :: l else y :: vm_ins x r end.
+Definition vm_srt (l : list N) : list N := fold_right vm_ins [] l.
+Inductive vm_tok := TOk | TNf | TFuel | TD (l : list N) | TP (l : list N) (unknown : nat) | TB (v : bool) | TBl (l : list N).
+Definition vm_known (l : list (option N)) : list N :=
+  vm_srt (flat_map (fun o => match o with Some k => [k] | None => [] end) l).
+Definition vm_unk (l : list (option N)) : nat :=
+  length (filter (fun o => match o with None => true | _ => false end) l).
+Definition vm_tok_of (o : out) : list vm_tok :=
+  match o with
+  | RNone => [] | ROk => [TOk] | RNotFound => [TNf] | RFuel => [TFuel]
+  | RDang d => [TD (vm_srt d)] | RPreds p => [TP (vm_known p) (vm_unk p)] | RBool v => [TB v]
+  end.
+Fixpoint vm_toks (flags : list bool) (outs : list out) : list vm_tok :=
+  match flags, outs with
+  | f :: fr, o :: r => (if f then vm_tok_of o else []) ++ vm_toks fr r
+  | _, _ => []
+  end.
+Definition vm_fuel : nat := (1000 * 100)%nat.
+Definition vm_graph (ct : amap) (ops : list op) (flags : list bool) : list vm_tok :=
+  vm_toks flags (snd (run ct vm_fuel init_state ops)).
+Fixpoint vm_store (content : node -> list node) (isman : node -> bool) (univ : list N) (s : ostore)
+         (ops : list (option oop)) : list vm_tok * bool :=
+  match ops with
+  | [] => ([], true)
+  | None :: r =>
+      let (t, ok) := vm_store content isman univ s r in
+      (TBl (vm_srt (o_blobs s)) ::
+       map (fun i => TP (vm_known (predecessors_raw (o_graph s) i)) (vm_unk (predecessors_raw (o_graph s) i))) univ ++ t, ok)
+  | Some o :: r =>
+      let (s', ok1) := ostep true content isman vm_fuel s o in
+      let (t, ok2) := vm_store content isman univ s' r in (t, ok1 && ok2)
+  end.
+Definition vm_store_case (ct : amap) (mans univ : list N) (ops : list (option oop)) : list vm_tok * bool :=
+  vm_store (ctab ct) (fun x => smem x mans) univ empty_store ops.
+"""
+
+
+def _vm_list(xs):
+    return "[" + "; ".join(xs) + "]"
+
+
+def _vm_ct(cts):
+    if cts == "-":
+        return "[]"
+    es = []
+    for e in cts.split(";"):
+        if not e:
+            continue
+        k, _, v = e.partition(":")
+        es.append("(%s, %s)" % (k, _vm_list([x for x in v.split(",") if x])))
+    return _vm_list(es)
+
+
+def _vm_ptok(t):
+    body = t[2:]
+    items = [x for x in body.split(",") if x]
+    known = [x for x in items if x != "?"]
+    return "TP %s %d" % (_vm_list(known), len(items) - len(known))
+
+
+def _vm_expect(toks):
+    out = []
+    for t in toks:
+        if t == "ok":
+            out.append("TOk")
+        elif t == "nf":
+            out.append("TNf")
+        elif t == "FUEL":
+            out.append("TFuel")
+        elif t == "t":
+            out.append("TB true")
+        elif t == "f":
+            out.append("TB false")
+        elif t.startswith("d:"):
+            out.append("TD " + _vm_list([x for x in t[2:].split(",") if x]))
+        elif t.startswith("p:"):
+            out.append(_vm_ptok(t))
+        elif t.startswith("b:"):
+            out.append("TBl " + _vm_list([x for x in t[2:].split(",") if x]))
+        else:
+            return None
+    return _vm_list(out)
+
+
+def _vm_goal(case, out):
+    p = case.split(" ")
+    toks = [t for t in out.split(" ") if t]
+    exp = _vm_expect(toks)
+    if exp is None:
+        return None
+    if p[0] == "S" and len(p) == 6:
+        nu, cts, mans, opss = int(p[1]), p[2], p[3], p[4]
+        ops = []
+        for t in ([] if opss == "-" else opss.split(",")):
+            k, a = t[0], t[1:]
+            if k == "S":
+                ops.append("None")
+            elif k == "P":
+                ops.append("Some (PPush %s)" % a)
+            elif k == "T":
+                ops.append("Some (PTag %s)" % a)
+            elif k == "U":
+                ops.append("Some (PUntag %s)" % a)
+            elif k == "X":
+                ops.append("Some (PDelete %s)" % a)
+            elif k == "G":
+                ops.append("Some (PGC %s)" % _vm_list([x for x in a.split(".") if x]))
+            elif k == "O":
+                ops.append("Some PReopen")
+            else:
+                return None
+        return ("vm_store_case (%s)%%N (%s)%%N (%s)%%N (%s)%%N\n  = ((%s)%%N, true)"
+                % (_vm_ct(cts), _vm_list([] if mans == "-" else mans.split(",")),
+                   _vm_list([str(i) for i in range(nu)]), _vm_list(ops), exp))
+    if len(p) == 4:
+        cts, opss = p[1], p[2]
+        ops, flags = [], []
+        names = {"I": "OIndex", "R": "ORemove", "D": "ORemove", "A": "OIndexAll", "Q": "OQuery", "E": "OExists"}
+        for t in ([] if opss == "-" else opss.split(",")):
+            k, a = t[0], t[1:]
+            if k in names:
+                ops.append("%s %s" % (names[k], a))
+                flags.append("false" if k == "D" else "true")
+            elif k == "+":
+                ops.append("OSok %s true" % a)
+                flags.append("false")
+            elif k == "-":
+                ops.append("OSok %s false" % a)
+                flags.append("false")
+            elif k == "Z":
+                ops.append("OReset")
+                flags.append("false")
+            else:
+                return None
+        return "vm_graph (%s)%%N (%s)%%N %s\n  = (%s)%%N" % (_vm_ct(cts), _vm_list(ops), _vm_list(flags), exp)
+    return None
+
+
+def _c07_vm_sample(d, tier, coq, build):
+    import os, subprocess
+    want = {"G": 200, "S": 100} if tier == "thorough" else {"G": 16, "S": 8}
+    maxlen = 1800
+    outs = {}
+    with open(os.path.join(d, "model.txt")) as f:
+        for l in f:
+            i, _, o = l.rstrip("\n").partition(" ")
+            outs[i] = o
+    cand = {"G": [], "S": []}
+    with open(os.path.join(d, "cases.txt")) as f:
+        for l in f:
+            if len(l) > maxlen:
+                continue
+            i, _, c = l.rstrip("\n").partition(" ")
+            if i in outs and len(outs[i]) <= maxlen:
+                cand["S" if c.startswith("S ") else "G"].append((i, c))
+    goals, got = [], {}
+    for k, lst in cand.items():
+        stride = max(1, len(lst) // want[k])
+        n = 0
+        for i, c in lst[::stride]:
+            if n >= want[k]:
+                break
+            g = _vm_goal(c, outs[i])
+            if g:
+                goals.append((i, g))
+                n += 1
+        got[k] = n
+    vdir = os.path.join(build, "vm")
+    os.makedirs(vdir, exist_ok=True)
+    vf = os.path.join(vdir, "C07_cases.v")
+    with open(vf, "w") as f:
+        f.write(_VM_PRELUDE)
+        for i, g in goals:
+            f.write("\n(* %s *)\nGoal %s.\nProof. vm_compute. reflexivity. Qed.\n" % (i, g))
+    p = subprocess.run(["coqc", "-R", coq, "Oras", "-w", "-notation-overridden,-abstract-large-number", vf], cwd=vdir,
+                       timeout=1500, stdout=subprocess.PIPE, stderr=subprocess.STDOUT, text=True)
+    with open(os.path.join(d, "vm_sample.txt"), "w") as f:
+        f.write("%d goals %s rc=%d\n%s" % (len(goals), got, p.returncode, p.stdout[-3000:]))
+    if p.returncode != 0:
+        return ["vm_compute re-evaluation of %d sampled cases inside Coq disagrees with the extracted runner (or does not type-check): %s"
+                % (len(goals), p.stdout[-1200:])]
+    if len(goals) < sum(want.values()) // 2:
+        return ["vm_compute sample too small: %d goals %s" % (len(goals), got)]
+    return []
+
 
 CONFIG = {
     "properties_file": "Properties/C07.v",
-    "proof_files": ["Proofs/GraphMem.v", "Proofs/GraphStore.v"],
-    "model_files": ["Generated/GC07.v", "Model/GraphMem.v", "Model/GraphStore.v"],
+    "proof_files": ["Proofs/GraphMem.v", "Proofs/GraphStore.v", "Proofs/IndexLTS.v"],
+    "model_files": ["Generated/GC07.v", "Model/GraphMem.v", "Model/GraphStore.v", "Model/IndexLTS.v"],
     "extract": "XC07.v",
     "ml_main": "c07_main.ml",
     "harness": "c07",
     "case_to_replay": _c07_case,
+    "post_model": _c07_vm_sample,
     "timeout_quick": 600,
     "timeout_thorough": 3000,
     "assumptions": [
@@ -28,10 +220,11 @@ CONFIG = {
         "sync.RWMutex makes index / Remove / Predecessors atomic: concurrency is modelled as an arbitrary interleaving (permutation) of atomic operations; IndexAll's concurrent traversal (syncutil.Go + status.Tracker) is modelled by a sequential work-list whose final graph is proved to depend only on the set of reachable fetchable nodes",
         "IndexAll/load theorems have the hypothesis `ok = true` (fuel not exhausted); C07_reload_terminates proves a sufficient fuel exists for every finite closed universe; the extracted runner uses fuel 100000 and prints FUEL otherwise",
         "OCI store level (Model/GraphStore.v): blobs, by-digest/tagged resolver entries (= root list of index.json) and graph.Memory; one descriptor key per digest (no same-bytes-two-media-types twins in a store); only manifest media types have successors; which referrers gcIndex keeps (subject walk, map order) is a universally quantified argument of the GC step; index.json is assumed to be saved (AutoSaveIndex default) before a reopen; resolver tag names, saveIndex encoding and GC errors/hangs (F1/F2) are outside this model (C08/C09)",
+        "index persistence under concurrency (Model/IndexLTS.v): Push/Tag/Untag = storage+graph step, one resolver update (sync.Map operation, atomic), saveIndex; whether saveIndex takes its snapshot of the resolver map inside the indexLock section that writes the file is re-read from content/oci/oci.go on every run (translator kind callseq -> Generated/GC07.calls_saveIndex -> save_index_atomic); the rename in writeFileAtomic is atomic (C10); Delete and GC are exclusive (sync.Lock) and not part of the LTS; resolver entries are abstract numbers, the projection written to index.json is C08's matter",
         "OCI GC that does not return (defect F1, property C09) or returns an error (index.json naming swept blobs after an earlier GC, defect F2, properties C08/C09) is not judged by C07; the harness avoids histories whose GC outcome depends on Go map order",
     ],
-    "level_text": "Coq theorems over all histories: the three invariants of graph.Memory hold after every sequence of Index/Remove/IndexAll/fresh-graph operations with content appearing and disappearing; under the invariant Predecessors(n) is exactly (NoDup, iff) the nodes in memory whose successors contain n, present or not; Remove returns exactly the nodes that lost their last predecessor, for every map iteration order; every permutation of a push list gives the same predecessor sets; the graph rebuilt by loadIndex/gcIndex holds exactly the nodes reachable from the roots and answers like the live graph when every stored manifest is a root; at the OCI store level (blobs, index roots, graph) Predecessors equals the stored referencing nodes after every Push/Tag/Delete/GC/reopen history and a reopen changes no answer (repaired gcIndex; refuted with a witness for the code before the repair). The model is tied to internal/graph/memory.go by a differential run through a build-tagged hook and to the memory/OCI/file stores by end-to-end histories (push orders, concurrent pushes, Delete with and without AutoGC, Tag, GC, reopen via oci.New / NewFromFS / NewFromTar) judged by an independent oracle",
+    "level_text": "Coq theorems over all histories: the three invariants of graph.Memory hold after every sequence of Index/Remove/IndexAll/fresh-graph operations with content appearing and disappearing; under the invariant Predecessors(n) is exactly (NoDup, iff) the nodes in memory whose successors contain n, present or not; Remove returns exactly the nodes that lost their last predecessor, for every map iteration order; every permutation of a push list gives the same predecessor sets; the graph rebuilt by loadIndex/gcIndex holds exactly the nodes reachable from the roots and answers like the live graph when every stored manifest is a root; at the OCI store level (blobs, index roots, graph) Predecessors equals the stored referencing nodes after every Push/Tag/Delete/GC/reopen history and a reopen changes no answer (repaired gcIndex; refuted with a witness for the code before the repair); for every interleaving of concurrent Push/Tag/Untag that runs to completion the index.json on disk equals the final resolver map when saveIndex snapshots under indexLock (as re-read from the source), hence reopen = live; refuted with a witness trace for the snapshot-outside-the-lock variant. The model is tied to internal/graph/memory.go by a differential run through a build-tagged hook and to the memory/OCI/file stores by end-to-end histories (push orders, concurrent pushes, Delete with and without AutoGC, Tag, GC, reopen via oci.New / NewFromFS / NewFromTar) judged by an independent oracle",
     "level_note": "content.Successors and its success predicate are parameters; the OCI store-level invariant (stored manifests = graph manifests = roots of index.json) is proved for the repaired gcIndex over all Push/Tag/Delete/GC/reopen histories and refuted for the pre-fix code; memory and file stores only push (C07_push_delete_exact); GC hangs/errors caused by F1/F2 are not judged here; undecodable manifests not modelled",
     "technique": "machine-checked proof in Coq (invariant over all operation histories, exactness, order independence, reachability characterisation of the IndexAll work-list) + model/implementation correspondence through a hook on graph.Memory + end-to-end oracle on the three stores",
-    "explanation": "theorems over all histories about the executable model of graph.Memory (index, Remove with danglings, IndexAll, Predecessors); the extracted model and the real graph.Memory are run on the same random histories and every output compared; memory, OCI and file stores are driven through the public API in random push orders (sequential and concurrent) followed by Delete/Tag/GC/re-push/reopen histories, every node queried after every step and compared with the generator's inverse edge list restricted to stored parents, and with the model",
+    "explanation": "theorems over all histories about the executable model of graph.Memory (index, Remove with danglings, IndexAll, Predecessors); the extracted model and the real graph.Memory are run on the same random histories and every output compared; memory, OCI and file stores are driven through the public API in random push orders (sequential and concurrent) followed by Delete/Tag/GC/re-push/reopen histories, every node queried after every step and compared with the generator's inverse edge list restricted to stored parents, and with the model; a dedicated burst stream pushes 16-32 distinct manifests sharing children from as many goroutines (optionally with concurrent Tag/Untag) into one OCI store and immediately reopens it via NewFromFS, NewFromTar and oci.New, judging every node against the blobs on disk; a sample of the correspondence cases is re-evaluated inside Coq with vm_compute (post_model hook)",
 }
